@@ -199,7 +199,7 @@ def census(target):
     except Exception as exc:  # pylint: disable=broad-except
         return {"target": W.target_name(target), "error": f"harness: {type(exc).__name__}: {exc}\n{traceback.format_exc()}",
                 "attrs": [], "skipped": {}, "notes": {}, "reopen_differs": {}}
-    return {"target": W.target_name(target), "error": tpl.error, "attrs": sorted(tpl.values),
+    return {"scratch": scratch(), "target": W.target_name(target), "error": tpl.error, "attrs": sorted(tpl.values),
             "skipped": tpl.skipped, "notes": tpl.notes, "reopen_differs": tpl.reopen_differs,
             "values": {a: [W.short(x, 60) for x in v] for a, v in tpl.values.items()},
             "two_valued": sorted(a for a, v in tpl.values.items() if W.same(W.canon(v[0]), W.canon(v[2])))}
@@ -531,7 +531,7 @@ def replay_item(item):
         viol, stats = Run(item).run()
     except MachineryError:
         raise
-    return {"viol": viol, "stats": stats}
+    return {"viol": viol, "stats": stats, "scratch": scratch()}
 
 
 # ----------------------------------------------------------------------------------------------------------------------
